@@ -24,6 +24,8 @@ pub enum Op {
     GetSafe { k: String },
     Remove { k: String, admin: bool },
     Inc { k: String, n: i32 },
+    /// an increment whose argument is not a 32-bit integer: nothing can be "added exactly", it has to be refused
+    IncBadArg { k: String, arg: String },
     Keys { p: String, admin: bool },
     Snapshot { reclaim: bool },
     Tick,
@@ -51,6 +53,7 @@ pub fn op_strategy() -> impl Strategy<Value = Op> {
         1 => s(model::PLAIN_KEYS).prop_map(|k| Op::GetSafe { k }),
         3 => (s(model::KEYS), any::<bool>()).prop_map(|(k, admin)| Op::Remove { k, admin }),
         3 => (s(model::PLAIN_KEYS), select(model::INCS.to_vec())).prop_map(|(k, n)| Op::Inc { k, n }),
+        1 => (s(model::PLAIN_KEYS), s(&["abc", "2147483648", "-2147483649", "1.5", "--5", "5x", "0x10", "1e3"])).prop_map(|(k, arg)| Op::IncBadArg { k, arg }),
         2 => (s(model::PATTERNS), any::<bool>()).prop_map(|(p, admin)| Op::Keys { p, admin }),
         2 => any::<bool>().prop_map(|reclaim| Op::Snapshot { reclaim }),
         2 => Just(Op::Tick),
@@ -264,6 +267,19 @@ fn step(w: &mut World, op: &Op, flags: &mut Flags) -> Option<(String, String)> {
             }
             if !msgs.is_empty() {
                 return mismatch("increment", h, "unexpected-message", format!("{:?}", msgs));
+            }
+        }
+        Op::IncBadArg { k, arg } => {
+            let h = w.hist(k);
+            let before = w.node.dump_db(DB);
+            let (r, _msgs) = w.user.send(&w.node, &format!("increment {} {}", k, arg));
+            w.node.pump();
+            flags.refusals += 1;
+            if !is_refusal(&r) {
+                return mismatch("increment", h, "argument-that-is-no-integer-accepted", format!("increment {} {} answered {} (the key holds {:?} now, {:?} before)", k, arg, resp_text(&r), w.node.dump_db(DB).and_then(|m| m.get(k).cloned()), before.as_ref().and_then(|m| m.get(k).cloned())));
+            }
+            if w.node.dump_db(DB) != before {
+                return mismatch("increment", h, "refused-but-changed", format!("increment {} {} was refused and changed the database", k, arg));
             }
         }
         Op::Keys { p, admin } => {
